@@ -2,7 +2,287 @@
    (Spec.v), LRU order among live entries (C10), expired-first eviction (C16),
    clean_expired_values (C17), TTL bookkeeping (C04/C05), no-effect calls (C19), clear (C20). *)
 Require Import Capp.Base Capp.Spec Capp.TtlLru.
-From Coq Require Import Sorted.
+From Coq Require Import Sorted Permutation.
+
+(* ------------------------------------------------------------------------- *)
+(* generic list helpers                                                       *)
+(* ------------------------------------------------------------------------- *)
+Section ListHelpers.
+  Context {K : Type} `{EqDec K}.
+
+  Lemma tl_keqb_refl : forall k : K, eqb k k = true.
+  Proof. intros k. destruct (eqb_spec k k); congruence. Qed.
+  Lemma tl_keqb_neq : forall a b : K, a <> b -> eqb a b = false.
+  Proof. intros a b n. destruct (eqb_spec a b); congruence. Qed.
+  Lemma tl_keqb_true : forall a b : K, eqb a b = true -> a = b.
+  Proof. intros a b e. destruct (eqb_spec a b); congruence. Qed.
+  Lemma tl_keqb_false : forall a b : K, eqb a b = false -> a <> b.
+  Proof. intros a b e. destruct (eqb_spec a b); congruence. Qed.
+
+  Lemma tl_NoDup_snoc : forall (A : Type) (l : list A) x, NoDup l -> ~ In x l -> NoDup (l ++ [x]).
+  Proof.
+    intros A l x Hn Hx. induction l as [|a l IH]; simpl.
+    - constructor; [intros []|constructor].
+    - inversion Hn as [|? ? Ha Hl]; subst. constructor.
+      + rewrite in_app_iff. intros [Hin|[Heq|[]]]; [tauto|]. subst. apply Hx. now left.
+      + apply IH; [assumption|]. intros Hin. apply Hx. now right.
+  Qed.
+
+  Lemma tl_filter_all : forall (A : Type) (p : A -> bool) l,
+      (forall x, In x l -> p x = true) -> filter p l = l.
+  Proof.
+    intros A p l. induction l as [|a l IH]; simpl; intros Hall; [reflexivity|].
+    rewrite (Hall a (or_introl eq_refl)). f_equal. apply IH. intros x Hx. apply Hall. now right.
+  Qed.
+  Lemma tl_filter_none : forall (A : Type) (p : A -> bool) l,
+      (forall x, In x l -> p x = false) -> filter p l = [].
+  Proof.
+    intros A p l. induction l as [|a l IH]; simpl; intros Hall; [reflexivity|].
+    rewrite (Hall a (or_introl eq_refl)). apply IH. intros x Hx. apply Hall. now right.
+  Qed.
+
+  Lemma tl_sorted_map_filter : forall (A B : Type) (R : B -> B -> Prop) (f : A -> B) (p : A -> bool) l,
+      StronglySorted R (map f l) -> StronglySorted R (map f (filter p l)).
+  Proof.
+    intros A B R f p l. induction l as [|a l IH]; simpl; intros Hs; [constructor|].
+    inversion Hs as [|? ? Hs' Hall]; subst.
+    destruct (p a); simpl; [|now apply IH].
+    constructor; [now apply IH|].
+    rewrite Forall_forall in *. intros y Hy. apply Hall.
+    rewrite in_map_iff in *. destruct Hy as [x [Hx Hin]]. exists x. split; [assumption|].
+    rewrite filter_In in Hin. tauto.
+  Qed.
+  Lemma tl_nodup_map_filter : forall (A B : Type) (f : A -> B) (p : A -> bool) l,
+      NoDup (map f l) -> NoDup (map f (filter p l)).
+  Proof.
+    intros A B f p l. induction l as [|a l IH]; simpl; intros Hn; [constructor|].
+    inversion Hn as [|? ? Ha Hl]; subst.
+    destruct (p a); simpl; [|now apply IH].
+    constructor; [|now apply IH].
+    intros Hin. apply Ha. rewrite in_map_iff in *. destruct Hin as [x [Hx Hin]]. exists x.
+    rewrite filter_In in Hin. tauto.
+  Qed.
+  Lemma tl_sorted_weaken : forall (A : Type) (R R' : A -> A -> Prop) l,
+      StronglySorted R l -> (forall a b, In a l -> In b l -> R a b -> R' a b) -> StronglySorted R' l.
+  Proof.
+    intros A R R' l Hs. induction Hs as [|a l Hs IH Hall]; intros Himp; [constructor|].
+    constructor.
+    - apply IH. intros x y Hx Hy. apply Himp; now right.
+    - rewrite Forall_forall in *. intros y Hy. apply Himp; [now left|now right|now apply Hall].
+  Qed.
+  Lemma tl_sorted_snoc : forall (A : Type) (R : A -> A -> Prop) l x,
+      StronglySorted R l -> (forall y, In y l -> R y x) -> StronglySorted R (l ++ [x]).
+  Proof.
+    intros A R l x Hs. induction Hs as [|a l Hs IH Hall]; intros Hx; simpl.
+    - constructor; constructor.
+    - constructor.
+      + apply IH. intros y Hy. apply Hx. now right.
+      + rewrite Forall_forall in *. intros y Hy. rewrite in_app_iff in Hy.
+        destruct Hy as [Hy|[Hy|[]]]; [now apply Hall|]. subst. apply Hx. now left.
+  Qed.
+
+  Section AssocFacts.
+    Context {A : Type}.
+    Implicit Types (l : list (K * A)).
+
+    Lemma tl_remk_filter : forall k l, remk k l = filter (fun x => negb (eqb k (fst x))) l.
+    Proof.
+      intros k l. induction l as [|[k' a] l IH]; simpl; [reflexivity|].
+      destruct (eqb k k'); simpl; [assumption|now f_equal].
+    Qed.
+    Lemma tl_assoc_remk : forall k k' l, assoc k' (remk k l) = if eqb k k' then None else assoc k' l.
+    Proof.
+      intros k k' l. induction l as [|[k0 a] l IH]; simpl.
+      - now destruct (eqb k k').
+      - destruct (eqb_spec k k0) as [E|N]; simpl.
+        + subst k0. rewrite IH. destruct (eqb_spec k k') as [E'|N']; [reflexivity|].
+          rewrite tl_keqb_neq; [reflexivity|congruence].
+        + rewrite IH. destruct (eqb_spec k k') as [E'|N']; [|reflexivity].
+          subst k'. now rewrite tl_keqb_neq.
+    Qed.
+    Lemma tl_assoc_app : forall k l1 l2,
+        assoc k (l1 ++ l2) = match assoc k l1 with Some a => Some a | None => assoc k l2 end.
+    Proof.
+      intros k l1 l2. induction l1 as [|[k0 a] l1 IH]; simpl; [reflexivity|].
+      now destruct (eqb k k0).
+    Qed.
+    Lemma tl_assoc_none_keys : forall k l, assoc k l = None <-> ~ In k (keys l).
+    Proof.
+      intros k l. induction l as [|[k0 a] l IH]; simpl; [tauto|].
+      destruct (eqb_spec k k0) as [E|N].
+      - subst. split; [discriminate|]. intros Hn. exfalso. apply Hn. now left.
+      - rewrite IH. split; [intros Hn [E|Hin]; [congruence|tauto]|tauto].
+    Qed.
+    Lemma tl_assoc_some_keys : forall k a l, assoc k l = Some a -> In k (keys l).
+    Proof.
+      intros k a l Ha. destruct (in_dec (fun x y => reflect_dec _ _ (eqb_spec x y)) k (keys l)) as [Hi|Hn];
+        [assumption|]. apply tl_assoc_none_keys in Hn. congruence.
+    Qed.
+    Lemma tl_assoc_some_in : forall k a l, assoc k l = Some a -> In (k, a) l.
+    Proof.
+      intros k a l. induction l as [|[k0 a0] l IH]; simpl; [discriminate|].
+      destruct (eqb_spec k k0) as [E|N]; intros Ha.
+      - left. congruence.
+      - right. now apply IH.
+    Qed.
+    Lemma tl_in_assoc_nodup : forall k a l, NoDup (keys l) -> In (k, a) l -> assoc k l = Some a.
+    Proof.
+      intros k a l. induction l as [|[k0 a0] l IH]; simpl; intros Hn Hin; [tauto|].
+      inversion Hn as [|? ? Hk Hl]; subst.
+      destruct Hin as [E|Hin].
+      - inversion E; subst. now rewrite tl_keqb_refl.
+      - destruct (eqb_spec k k0) as [E|N]; [|now apply IH].
+        subst. exfalso. apply Hk. unfold keys. rewrite in_map_iff. now exists (k0, a).
+    Qed.
+    Lemma tl_nodup_keys_remk : forall k l, NoDup (keys l) -> NoDup (keys (remk k l)).
+    Proof. intros k l. rewrite tl_remk_filter. apply tl_nodup_map_filter. Qed.
+    Lemma tl_remk_absent : forall k l, assoc k l = None -> remk k l = l.
+    Proof.
+      intros k l. induction l as [|[k0 a] l IH]; simpl; [reflexivity|].
+      destruct (eqb k k0); [discriminate|]. intros Ha. f_equal. now apply IH.
+    Qed.
+    Lemma tl_length_remk_le : forall k l, length (remk k l) <= length l.
+    Proof.
+      intros k l. induction l as [|[k0 a] l IH]; simpl; [lia|]. destruct (eqb k k0); simpl; lia.
+    Qed.
+    Lemma tl_length_remk : forall k a l, NoDup (keys l) -> assoc k l = Some a ->
+        length l = S (length (remk k l)).
+    Proof.
+      intros k a l. induction l as [|[k0 a0] l IH]; simpl; intros Hn Ha; [discriminate|].
+      inversion Hn as [|? ? Hk Hl]; subst.
+      destruct (eqb_spec k k0) as [E|N]; simpl.
+      - subst. rewrite tl_remk_absent; [reflexivity|]. now apply tl_assoc_none_keys.
+      - f_equal. now apply IH.
+    Qed.
+    Lemma tl_assoc_touch : forall k a k' l,
+        assoc k' (remk k l ++ [(k, a)]) = if eqb k k' then Some a else assoc k' l.
+    Proof.
+      intros k a k' l. rewrite tl_assoc_app, tl_assoc_remk. simpl.
+      destruct (eqb_spec k k') as [E|N].
+      - subst. now rewrite tl_keqb_refl.
+      - rewrite (tl_keqb_neq k' k) by congruence. now destruct (assoc k' l).
+    Qed.
+    Lemma tl_assoc_touch_same : forall k a k' l, assoc k l = Some a ->
+        assoc k' (remk k l ++ [(k, a)]) = assoc k' l.
+    Proof.
+      intros k a k' l Ha. rewrite tl_assoc_touch. destruct (eqb_spec k k'); congruence.
+    Qed.
+    Lemma tl_assoc_snoc_absent : forall k a k' l, assoc k l = None ->
+        assoc k' (l ++ [(k, a)]) = if eqb k k' then Some a else assoc k' l.
+    Proof.
+      intros k a k' l Ha. rewrite <- (tl_remk_absent k l Ha) at 1. apply tl_assoc_touch.
+    Qed.
+    Lemma tl_nodup_keys_touch : forall k a l, NoDup (keys l) -> NoDup (keys (remk k l ++ [(k, a)])).
+    Proof.
+      intros k a l Hn. unfold keys. rewrite map_app. simpl. apply tl_NoDup_snoc.
+      - now apply tl_nodup_keys_remk.
+      - apply tl_assoc_none_keys. rewrite tl_assoc_remk. now rewrite tl_keqb_refl.
+    Qed.
+    Lemma tl_length_touch : forall k a a0 l, NoDup (keys l) -> assoc k l = Some a0 ->
+        length (remk k l ++ [(k, a)]) = length l.
+    Proof.
+      intros k a a0 l Hn Ha. rewrite app_length. simpl. rewrite (tl_length_remk k a0 l Hn Ha). lia.
+    Qed.
+    Lemma tl_assoc_filter : forall (p : K * A -> bool) k l, NoDup (keys l) ->
+        assoc k (filter p l) =
+        match assoc k l with Some a => if p (k, a) then Some a else None | None => None end.
+    Proof.
+      intros p k l. induction l as [|[k0 a0] l IH]; simpl; intros Hn; [reflexivity|].
+      inversion Hn as [|? ? Hk Hl]; subst.
+      destruct (eqb_spec k k0) as [E|N].
+      - subst. destruct (p (k0, a0)) eqn:Hp; simpl.
+        + now rewrite tl_keqb_refl.
+        + rewrite IH by assumption. apply tl_assoc_none_keys in Hk. now rewrite Hk.
+      - destruct (p (k0, a0)); simpl; [rewrite (tl_keqb_neq _ _ N)|]; now apply IH.
+    Qed.
+    Lemma tl_filter_remk_false : forall (p : K * A -> bool) k a l, NoDup (keys l) ->
+        assoc k l = Some a -> p (k, a) = false -> filter p (remk k l) = filter p l.
+    Proof.
+      intros p k a l. induction l as [|[k0 a0] l IH]; simpl; intros Hn Ha Hp; [reflexivity|].
+      inversion Hn as [|? ? Hk Hl]; subst.
+      destruct (eqb_spec k k0) as [E|N].
+      - subst. inversion Ha; subst. rewrite Hp. rewrite tl_remk_absent; [reflexivity|].
+        now apply tl_assoc_none_keys.
+      - simpl. destruct (p (k0, a0)); [f_equal|]; now apply IH.
+    Qed.
+    Lemma tl_filter_remk_true : forall (p : K * A -> bool) k a l, NoDup (keys l) ->
+        assoc k l = Some a -> p (k, a) = true ->
+        length (filter p l) = S (length (filter p (remk k l))).
+    Proof.
+      intros p k a l. induction l as [|[k0 a0] l IH]; simpl; intros Hn Ha Hp; [discriminate|].
+      inversion Hn as [|? ? Hk Hl]; subst.
+      destruct (eqb_spec k k0) as [E|N].
+      - subst. inversion Ha; subst. rewrite Hp. simpl. rewrite tl_remk_absent; [reflexivity|].
+        now apply tl_assoc_none_keys.
+      - simpl. destruct (p (k0, a0)); simpl; [f_equal|]; now apply IH.
+    Qed.
+  End AssocFacts.
+
+  (* the deadline order *)
+  Implicit Types (o : list (Z * K)).
+
+  Lemma tl_rem2_filter : forall k o, rem2 k o = filter (fun x => negb (eqb k (snd x))) o.
+  Proof.
+    intros k o. induction o as [|[e k'] o IH]; simpl; [reflexivity|].
+    destruct (eqb k k'); simpl; [assumption|now f_equal].
+  Qed.
+  Lemma tl_in_rem2 : forall k e k' o, In (e, k') (rem2 k o) <-> In (e, k') o /\ k' <> k.
+  Proof.
+    intros k e k' o. rewrite tl_rem2_filter, filter_In. simpl.
+    destruct (eqb_spec k k') as [E|N]; simpl; split; intros [H1 H2]; split; auto; congruence.
+  Qed.
+  Lemma tl_rem2_absent : forall k o, ~ In k (map snd o) -> rem2 k o = o.
+  Proof.
+    intros k o Hn. rewrite tl_rem2_filter. apply tl_filter_all. intros [e k'] Hin. simpl.
+    rewrite tl_keqb_neq; [reflexivity|]. intros E. subst. apply Hn. rewrite in_map_iff. now exists (e, k').
+  Qed.
+  Lemma tl_rem2_head : forall k e o, ~ In k (map snd o) -> rem2 k ((e, k) :: o) = o.
+  Proof. intros k e o Hn. simpl. rewrite tl_keqb_refl. now apply tl_rem2_absent. Qed.
+  Lemma tl_dl_insert_perm : forall e k o, Permutation ((e, k) :: o) (dl_insert e k o).
+  Proof.
+    intros e k o. induction o as [|[e' k'] o IH]; simpl; [reflexivity|].
+    destruct (e' <=? e)%Z; [|reflexivity].
+    eapply perm_trans; [apply perm_swap|]. now apply perm_skip.
+  Qed.
+  Lemma tl_in_dl_insert : forall e k o x, In x (dl_insert e k o) <-> x = (e, k) \/ In x o.
+  Proof.
+    intros e k o x. split.
+    - intros Hin. apply (Permutation_in _ (Permutation_sym (tl_dl_insert_perm e k o))) in Hin.
+      destruct Hin as [E|Hin]; [left; congruence|now right].
+    - intros Hin. apply (Permutation_in _ (tl_dl_insert_perm e k o)). destruct Hin; [left; congruence|now right].
+  Qed.
+  Lemma tl_nodup_snd_dl_insert : forall e k o, NoDup (map snd o) -> ~ In k (map snd o) ->
+      NoDup (map snd (dl_insert e k o)).
+  Proof.
+    intros e k o Hn Hk.
+    apply (Permutation_NoDup (Permutation_map snd (tl_dl_insert_perm e k o))). simpl. now constructor.
+  Qed.
+  Lemma tl_sorted_dl_insert : forall e k o, StronglySorted Z.le (map fst o) ->
+      StronglySorted Z.le (map fst (dl_insert e k o)).
+  Proof.
+    intros e k o. induction o as [|[e' k'] o IH]; simpl; intros Hs.
+    - constructor; constructor.
+    - inversion Hs as [|? ? Hs' Hall]; subst.
+      destruct (Z.leb_spec e' e) as [Hle|Hlt]; simpl.
+      + constructor; [now apply IH|].
+        rewrite Forall_forall in *. intros y Hy. rewrite in_map_iff in Hy.
+        destruct Hy as [[e1 k1] [E Hin]]. simpl in E. subst e1.
+        apply tl_in_dl_insert in Hin. destruct Hin as [E|Hin].
+        * inversion E; subst. assumption.
+        * apply Hall. rewrite in_map_iff. now exists (y, k1).
+      + constructor; [assumption|].
+        constructor; [lia|]. rewrite Forall_forall in *. intros y Hy. apply Hall in Hy. lia.
+  Qed.
+  Lemma tl_sorted_head : forall e k o e' k', StronglySorted Z.le (map fst ((e, k) :: o)) ->
+      In (e', k') ((e, k) :: o) -> (e <= e')%Z.
+  Proof.
+    intros e k o e' k' Hs Hin. simpl in Hs. inversion Hs as [|? ? Hs' Hall]; subst.
+    destruct Hin as [E|Hin]; [inversion E; lia|].
+    rewrite Forall_forall in Hall. apply Hall. rewrite in_map_iff. now exists (e', k').
+  Qed.
+End ListHelpers.
+
+Ltac tl_splits := repeat match goal with |- _ /\ _ => split end.
 
 Section TlFacts.
   Context {K V : Type} `{EqDec K}.
@@ -34,11 +314,673 @@ Section TlFacts.
     m_has_clear := u
   |}.
 
+  (* ---- the list part of the invariant ---- *)
+  Definition tl_core (l : list (K * (V * Z))) (o : list (Z * K)) : Prop :=
+    NoDup (keys l) /\ NoDup (map snd o) /\
+    (forall k e, In (e, k) o <-> exists v, assoc k l = Some (v, e)) /\
+    StronglySorted Z.le (map fst o).
+
+  Lemma tl_inv_core : forall u t s, tl_inv u t s -> tl_core (tl_lru s) (tl_ord s).
+  Proof. intros u t s (_ & _ & H1 & _ & H2 & H3 & H4). unfold tl_core. tl_splits; auto. Qed.
+
+  Lemma tl_inv_with : forall u t t' s l o, tl_inv u t s -> tl_core l o -> length l <= tl_cap s ->
+      tl_inv u t' (tl_with s l o).
+  Proof.
+    intros u t t' s l o (Hu & Hc & _) (H1 & H2 & H3 & H4) Hlen.
+    unfold tl_inv. simpl. tl_splits; auto.
+  Qed.
+
+  Lemma tl_core_absent_ord : forall l o k, tl_core l o -> assoc k l = None -> ~ In k (map snd o).
+  Proof.
+    intros l o k (_ & _ & Hiff & _) Ha Hin. rewrite in_map_iff in Hin.
+    destruct Hin as [[e k'] [E Hin]]. simpl in E. subst k'.
+    apply Hiff in Hin. destruct Hin as [v Hv]. congruence.
+  Qed.
+
+  Lemma tl_core_erase : forall l o k, tl_core l o -> tl_core (remk k l) (rem2 k o).
+  Proof.
+    intros l o k (H1 & H2 & H3 & H4). repeat split.
+    - now apply tl_nodup_keys_remk.
+    - rewrite tl_rem2_filter. now apply tl_nodup_map_filter.
+    - intros Hin. apply tl_in_rem2 in Hin. destruct Hin as [Hin Hne].
+      apply H3 in Hin. destruct Hin as [v Hv]. exists v. rewrite tl_assoc_remk.
+      rewrite tl_keqb_neq by congruence. assumption.
+    - intros [v Hv]. rewrite tl_assoc_remk in Hv. destruct (eqb_spec k k0) as [E|N]; [discriminate|].
+      apply tl_in_rem2. split; [|congruence]. apply H3. now exists v.
+    - rewrite tl_rem2_filter. now apply tl_sorted_map_filter.
+  Qed.
+
+  Lemma tl_core_add : forall l o k v e, tl_core l o -> assoc k l = None ->
+      tl_core (l ++ [(k, (v, e))]) (dl_insert e k o).
+  Proof.
+    intros l o k v e Hc Ha. pose proof (tl_core_absent_ord _ _ _ Hc Ha) as Hko.
+    destruct Hc as (H1 & H2 & H3 & H4). repeat split.
+    - unfold keys. rewrite map_app. simpl. apply tl_NoDup_snoc; [assumption|].
+      now apply tl_assoc_none_keys.
+    - now apply tl_nodup_snd_dl_insert.
+    - intros Hin. apply tl_in_dl_insert in Hin. rewrite tl_assoc_snoc_absent by assumption.
+      destruct Hin as [E|Hin].
+      + inversion E; subst. rewrite tl_keqb_refl. now exists v.
+      + destruct (eqb_spec k k0) as [E|N].
+        * subst. exfalso. apply Hko. rewrite in_map_iff. now exists (e0, k0).
+        * now apply H3.
+    - intros [v0 Hv]. rewrite tl_assoc_snoc_absent in Hv by assumption. apply tl_in_dl_insert.
+      destruct (eqb_spec k k0) as [E|N].
+      + left. congruence.
+      + right. apply H3. now exists v0.
+    - now apply tl_sorted_dl_insert.
+  Qed.
+
+  Lemma tl_core_update : forall l o k v e, tl_core l o ->
+      tl_core (remk k l ++ [(k, (v, e))]) (dl_insert e k (rem2 k o)).
+  Proof.
+    intros l o k v e Hc. apply tl_core_add; [now apply tl_core_erase|].
+    rewrite tl_assoc_remk. now rewrite tl_keqb_refl.
+  Qed.
+
+  Lemma tl_core_touch : forall l o k v e, tl_core l o -> assoc k l = Some (v, e) ->
+      tl_core (remk k l ++ [(k, (v, e))]) o.
+  Proof.
+    intros l o k v e (H1 & H2 & H3 & H4) Ha. repeat split; auto.
+    - now apply tl_nodup_keys_touch.
+    - intros Hin. rewrite tl_assoc_touch_same by assumption. now apply H3.
+    - intros Hv. rewrite tl_assoc_touch_same in Hv by assumption. now apply H3.
+  Qed.
+
+  Lemma tl_core_nil : tl_core [] [].
+  Proof.
+    repeat split; simpl; try constructor; try tauto. intros [v Hv]. discriminate.
+  Qed.
+
   Lemma tl_inv_init : forall u cap ttl t, 1 <= cap -> tl_inv u t (tl_init u cap ttl).
-  Admitted.
+  Proof.
+    intros u cap ttl t Hc. destruct tl_core_nil as (H1 & H2 & H3 & H4).
+    unfold tl_inv. simpl. tl_splits; auto; try lia.
+  Qed.
+
+  Lemma tl_inv_time : forall u t t' s, tl_inv u t s -> tl_inv u t' s.
+  Proof. intros u t t' s Hi. exact Hi. Qed.
+
+  Lemma tl_inv_erase_key : forall u t t' s k, tl_inv u t s -> tl_inv u t' (tl_erase_key s k).
+  Proof.
+    intros u t t' s k Hi. unfold tl_erase_key. eapply tl_inv_with; [eassumption| |].
+    - apply tl_core_erase. eapply tl_inv_core; eassumption.
+    - destruct Hi as (_ & _ & _ & Hl & _). pose proof (tl_length_remk_le k (tl_lru s)). lia.
+  Qed.
+
+  Lemma tl_inv_update : forall u t t' s k v e v0 e0, tl_inv u t s ->
+      assoc k (tl_lru s) = Some (v0, e0) -> tl_inv u t' (tl_update s k v e).
+  Proof.
+    intros u t t' s k v e v0 e0 Hi Ha. unfold tl_update. eapply tl_inv_with; [eassumption| |].
+    - apply tl_core_update. eapply tl_inv_core; eassumption.
+    - destruct Hi as (_ & _ & Hn & Hl & _). erewrite tl_length_touch; eauto.
+  Qed.
+
+  Lemma tl_inv_touch : forall u t t' s k v e, tl_inv u t s ->
+      assoc k (tl_lru s) = Some (v, e) ->
+      tl_inv u t' (tl_with s (remk k (tl_lru s) ++ [(k, (v, e))]) (tl_ord s)).
+  Proof.
+    intros u t t' s k v e Hi Ha. eapply tl_inv_with; [eassumption| |].
+    - apply tl_core_touch; [eapply tl_inv_core; eassumption|assumption].
+    - destruct Hi as (_ & _ & Hn & Hl & _). erewrite tl_length_touch; eauto.
+  Qed.
+
+  (* ---- what do_prune does on a non-empty store ---- *)
+  Lemma tl_prune_spec : forall u t s now, tl_inv u t s -> tl_lru s <> [] ->
+      exists kv vv ev, tl_prune s now = tl_erase_key s kv /\
+        assoc kv (tl_lru s) = Some (vv, ev) /\
+        ((ev <= now)%Z \/
+         ((exists x r, tl_lru s = (kv, x) :: r) /\
+          forall k v e, assoc k (tl_lru s) = Some (v, e) -> (now < e)%Z)).
+  Proof.
+    intros u t s now Hi Hne. apply tl_inv_core in Hi. destruct Hi as (H1 & H2 & H3 & H4).
+    unfold tl_prune.
+    destruct (tl_lru s) as [|[kl [vl el]] r] eqn:Hl; [congruence|].
+    destruct (tl_ord s) as [|[e kh] ro] eqn:Ho.
+    - exfalso. apply (H3 kl el). exists vl. simpl. now rewrite tl_keqb_refl.
+    - destruct (Z.leb_spec e now) as [Hle|Hlt].
+      + destruct (proj1 (H3 kh e) (or_introl eq_refl)) as [v Hv].
+        exists kh, v, e. repeat split; auto.
+      + exists kl, vl, el. split; [reflexivity|]. split; [simpl; now rewrite tl_keqb_refl|].
+        right. split; [now exists (vl, el), r|].
+        intros k v e' Ha. assert (Hin : In (e', k) ((e, kh) :: ro)) by (apply H3; now exists v).
+        pose proof (tl_sorted_head _ _ _ _ _ H4 Hin). lia.
+  Qed.
+
+  (* ---- case analyses of the three state-changing calls ---- *)
+  Lemma tl_find_cases : forall (s : tl K V) k pk now s' r, tl_find s k pk now = (s', r) ->
+      (assoc k (tl_lru s) = None /\ s' = s /\ r = None) \/
+      (exists v e, assoc k (tl_lru s) = Some (v, e) /\ (now < e)%Z /\ r = Some v /\
+         s' = if pk then s else tl_with s (remk k (tl_lru s) ++ [(k, (v, e))]) (tl_ord s)) \/
+      (exists v e, assoc k (tl_lru s) = Some (v, e) /\ (e <= now)%Z /\ r = None /\
+         s' = tl_erase_key s k).
+  Proof.
+    intros s k pk now s' r Hf. unfold tl_find in Hf.
+    destruct (assoc k (tl_lru s)) as [[v e]|] eqn:Ha.
+    - destruct (Z.ltb_spec now e) as [Hlt|Hle]; inversion Hf; subst.
+      + right; left. exists v, e. auto.
+      + right; right. exists v, e. auto.
+    - inversion Hf; subst. left. auto.
+  Qed.
+
+  Lemma tl_ins_cases : forall u t (s : tl K V) k v a now e s' b, tl_inv u t s ->
+      tl_ins s k v a now e = (s', b) ->
+      (b = false /\ s' = s /\
+        ((assoc k (tl_lru s) = None /\ a_ins a = false) \/
+         (exists v0 e0, assoc k (tl_lru s) = Some (v0, e0) /\ a_upd a = false /\
+            (a_ins a = false \/ (now < e0)%Z)))) \/
+      (b = true /\ s' = tl_update s k v e /\
+        exists v0 e0, assoc k (tl_lru s) = Some (v0, e0) /\
+          (a_upd a = true \/ (a_ins a = true /\ (e0 <= now)%Z))) \/
+      (b = true /\ assoc k (tl_lru s) = None /\ a_ins a = true /\
+        length (tl_lru s) < tl_cap s /\
+        s' = tl_with s (tl_lru s ++ [(k, (v, e))]) (dl_insert e k (tl_ord s))) \/
+      (b = true /\ assoc k (tl_lru s) = None /\ a_ins a = true /\
+        length (tl_lru s) = tl_cap s /\
+        exists kv vv ev,
+          s' = tl_with s (remk kv (tl_lru s) ++ [(k, (v, e))])
+                         (dl_insert e k (rem2 kv (tl_ord s))) /\
+          assoc kv (tl_lru s) = Some (vv, ev) /\
+          ((ev <= now)%Z \/
+           ((exists x r, tl_lru s = (kv, x) :: r) /\
+            forall k1 v1 e1, assoc k1 (tl_lru s) = Some (v1, e1) -> (now < e1)%Z))).
+  Proof.
+    intros u t s k v a now e s' b Hi Hins. unfold tl_ins in Hins.
+    destruct (assoc k (tl_lru s)) as [[v0 e0]|] eqn:Ha.
+    - destruct (a_upd a) eqn:Hu.
+      + inversion Hins; subst. right; left. tl_splits; auto. exists v0, e0. auto.
+      + destruct (a_ins a) eqn:Hin.
+        * destruct (Z.leb_spec e0 now) as [Hle|Hlt]; inversion Hins; subst.
+          -- right; left. tl_splits; auto. exists v0, e0. auto.
+          -- left. tl_splits; auto. right. exists v0, e0. auto.
+        * inversion Hins; subst. left. tl_splits; auto. right. exists v0, e0. auto.
+    - destruct (a_ins a) eqn:Hin.
+      + destruct (Nat.leb_spec (tl_cap s) (length (tl_lru s))) as [Hfull|Hroom];
+          cbv zeta in Hins; inversion Hins; subst; clear Hins.
+        * right; right; right.
+          assert (Hlen : length (tl_lru s) = tl_cap s).
+          { destruct Hi as (_ & _ & _ & Hl & _). lia. }
+          assert (Hne : tl_lru s <> []).
+          { intros E. rewrite E in Hlen. simpl in Hlen. destruct Hi as (_ & Hc & _). lia. }
+          destruct (tl_prune_spec u t s now Hi Hne) as (kv & vv & ev & Hp & Hkv & Hor).
+          tl_splits; auto. exists kv, vv, ev. rewrite Hp. tl_splits; auto.
+        * right; right; left. tl_splits; auto.
+      + inversion Hins; subst. left. tl_splits; auto.
+  Qed.
+
+  Lemma tl_assoc_evict_add : forall (l : list (K * (V * Z))) k a kv k', assoc k l = None ->
+      assoc k' (remk kv l ++ [(k, a)]) =
+      if eqb k k' then Some a else if eqb kv k' then None else assoc k' l.
+  Proof.
+    intros l k a kv k' Ha. rewrite tl_assoc_snoc_absent.
+    - now rewrite tl_assoc_remk.
+    - rewrite tl_assoc_remk. now destruct (eqb kv k).
+  Qed.
+
+  (* ---- clean_expired_values ---- *)
+  Lemma tl_filter_split_len : forall now (l : list (K * (V * Z))),
+      length (filter (fun x => (now <? snd (snd x))%Z) l) +
+      length (filter (fun x => (snd (snd x) <=? now)%Z) l) = length l.
+  Proof.
+    intros now l. induction l as [|[k [v e]] l IH]; simpl; [reflexivity|].
+    destruct (Z.ltb_spec now e) as [H1|H1]; destruct (Z.leb_spec e now) as [H2|H2]; simpl; lia.
+  Qed.
+
+  Lemma tl_clean_loop_spec : forall now o (l : list (K * (V * Z))) n l' o' n', tl_core l o ->
+      tl_clean_loop now o l n = (l', o', n') ->
+      tl_core l' o' /\ l' = filter (fun x => (now <? snd (snd x))%Z) l /\
+      n' = n + length (filter (fun x => (snd (snd x) <=? now)%Z) l) /\
+      (forall e k, In (e, k) o' -> (now < e)%Z).
+  Proof.
+    intros now o. induction o as [|[e k] r IH]; intros l n l' o' n' Hc Hloop; simpl in Hloop.
+    - inversion Hloop; subst l' o' n'. destruct l as [|[k [v e]] l].
+      + simpl. tl_splits; auto; try lia; try (intros e k []).
+      + exfalso. destruct Hc as (_ & _ & H3 & _). apply (H3 k e). exists v. simpl.
+        now rewrite tl_keqb_refl.
+    - destruct (Z.leb_spec e now) as [Hle|Hlt].
+      + assert (Hk : exists v, assoc k l = Some (v, e)).
+        { destruct Hc as (_ & _ & H3 & _). apply H3. now left. }
+        destruct Hk as [v Hv].
+        assert (Hc' : tl_core (remk k l) r).
+        { pose proof (tl_core_erase _ _ k Hc) as Hc'. rewrite tl_rem2_head in Hc'; [assumption|].
+          destruct Hc as (_ & H2 & _). simpl in H2. now inversion H2. }
+        destruct (IH _ _ _ _ _ Hc' Hloop) as (Hc2 & Hl & Hn & Ho).
+        destruct Hc as (H1 & _).
+        tl_splits; auto.
+        * rewrite Hl. apply (tl_filter_remk_false _ k (v, e)); auto. simpl.
+          destruct (Z.ltb_spec now e); [lia|reflexivity].
+        * rewrite Hn. rewrite (tl_filter_remk_true (fun x => (snd (snd x) <=? now)%Z) k (v, e) l); auto.
+          -- lia.
+          -- simpl. destruct (Z.leb_spec e now); [reflexivity|lia].
+      + inversion Hloop; subst l' o' n'.
+        assert (Hall : forall x, In x l -> (now < snd (snd x))%Z).
+        { intros [k' [v' e']] Hin. simpl. destruct Hc as (H1 & _ & H3 & H4).
+          assert (Hin' : In (e', k') ((e, k) :: r)).
+          { apply H3. exists v'. now apply tl_in_assoc_nodup. }
+          pose proof (tl_sorted_head _ _ _ _ _ H4 Hin'). lia. }
+        tl_splits; auto.
+        * symmetry. apply tl_filter_all. intros x Hx. apply Hall in Hx.
+          destruct (Z.ltb_spec now (snd (snd x))); [reflexivity|lia].
+        * rewrite tl_filter_none; [simpl; lia|]. intros x Hx. apply Hall in Hx.
+          destruct (Z.leb_spec (snd (snd x)) now); [lia|reflexivity].
+        * intros e' k' Hin. destruct Hc as (_ & _ & _ & H4).
+          pose proof (tl_sorted_head _ _ _ _ _ H4 Hin). lia.
+  Qed.
+
+  (* ---- the abstract content in terms of the store ---- *)
+  Lemma tl_get_none : forall (s : tl K V) k, tl_get s k = None <-> assoc k (tl_lru s) = None.
+  Proof.
+    intros s k. unfold tl_get. destruct (assoc k (tl_lru s)) as [[v e]|]; split; congruence.
+  Qed.
+  Lemma tl_get_ext : forall (s s' : tl K V) k, assoc k (tl_lru s') = assoc k (tl_lru s) ->
+      tl_get s' k = tl_get s k.
+  Proof. intros s s' k E. unfold tl_get. now rewrite E. Qed.
+  Lemma tl_live_assoc : forall (s : tl K V) now k,
+      livek (tl_get s) now k <-> exists v e, assoc k (tl_lru s) = Some (v, e) /\ (now < e)%Z.
+  Proof.
+    intros s now k. unfold livek, tl_get. split.
+    - intros (v & d & Hg & Ha). destruct (assoc k (tl_lru s)) as [[v0 e0]|]; [|discriminate].
+      inversion Hg; subst. simpl in Ha. exists v, e0. split; [reflexivity|].
+      destruct (Z.ltb_spec now e0); [assumption|discriminate].
+    - intros (v & e & Ha & Hlt). rewrite Ha. exists v, (Some e). split; [reflexivity|].
+      simpl. destruct (Z.ltb_spec now e); [reflexivity|lia].
+  Qed.
+  Lemma tl_dead_assoc : forall (s : tl K V) now k,
+      deadk (tl_get s) now k <-> exists v e, assoc k (tl_lru s) = Some (v, e) /\ (e <= now)%Z.
+  Proof.
+    intros s now k. unfold deadk, tl_get. split.
+    - intros (v & d & Hg & Ha). destruct (assoc k (tl_lru s)) as [[v0 e0]|]; [|discriminate].
+      inversion Hg; subst. exists v, d. auto.
+    - intros (v & e & Ha & Hle). rewrite Ha. exists v, e. auto.
+  Qed.
+  Lemma tl_no_loss : forall (s s' : tl K V) now k, assoc k (tl_lru s') = assoc k (tl_lru s) ->
+      ~ lost_live (tl_get s) (tl_get s') now k.
+  Proof.
+    intros s s' now k E [Hl Hn]. apply tl_live_assoc in Hl. destruct Hl as (v & e & Ha & _).
+    apply tl_get_none in Hn. congruence.
+  Qed.
+
+  (* ---------------- C17: clean_expired_values ---------------- *)
+  (* removes exactly the dead entries, returns their number, and leaves the live entries
+     and their recency order as they were *)
+  Theorem tl_clean_exact : forall u t (s : tl K V) now s' n,
+      tl_inv u t s -> (t <= now)%Z -> tl_clean s now = (s', n) ->
+      tl_inv u now s' /\
+      tl_lru s' = filter (fun x => (now <? snd (snd x))%Z) (tl_lru s) /\
+      n = length (filter (fun x => (snd (snd x) <=? now)%Z) (tl_lru s)) /\
+      tl_size s' + n = tl_size s /\
+      (forall k, ~ deadk (tl_get s') now k).
+  Proof.
+    intros u t s now s' n Hi Ht Hcl. unfold tl_clean in Hcl.
+    destruct (tl_clean_loop now (tl_ord s) (tl_lru s) 0) as [[l o] n0] eqn:Hloop.
+    inversion Hcl; subst; clear Hcl.
+    destruct (tl_clean_loop_spec _ _ _ _ _ _ _ (tl_inv_core _ _ _ Hi) Hloop) as (Hc & Hl & Hn & Ho).
+    pose proof (tl_filter_split_len now (tl_lru s)) as Hsplit.
+    tl_splits.
+    - eapply tl_inv_with; [eassumption|assumption|]. destruct Hi as (_ & _ & _ & Hlen & _).
+      rewrite Hl. lia.
+    - assumption.
+    - simpl in Hn. assumption.
+    - unfold tl_size. simpl. rewrite Hl, Hn. simpl. lia.
+    - intros k Hd. apply tl_dead_assoc in Hd. destruct Hd as (v & e & Ha & Hle). simpl in Ha.
+      destruct Hc as (_ & _ & H3 & _). assert (Hin : In (e, k) o) by (apply H3; now exists v).
+      apply Ho in Hin. lia.
+  Qed.
+
+  Lemma tl_clean_assoc : forall u t (s : tl K V) now s' n k, tl_inv u t s ->
+      tl_clean s now = (s', n) ->
+      assoc k (tl_lru s') =
+      match assoc k (tl_lru s) with
+      | Some (v, e) => if (now <? e)%Z then Some (v, e) else None
+      | None => None
+      end.
+  Proof.
+    intros u t s now s' n k Hi Hcl. unfold tl_clean in Hcl.
+    destruct (tl_clean_loop now (tl_ord s) (tl_lru s) 0) as [[l o] n0] eqn:Hloop.
+    inversion Hcl; subst; clear Hcl.
+    destruct (tl_clean_loop_spec _ _ _ _ _ _ _ (tl_inv_core _ _ _ Hi) Hloop) as (Hc & Hl & Hn & Ho).
+    simpl. rewrite Hl. rewrite tl_assoc_filter by (destruct Hi as (_ & _ & Hnd & _); exact Hnd).
+    destruct (assoc k (tl_lru s)) as [[v e]|]; reflexivity.
+  Qed.
+
+  (* ---- every single call preserves the invariant and the capacity ---- *)
+  Lemma tl_step_inv : forall u t (s : tl K V) o now rnd s' r, tl_inv u t s -> single o = true ->
+      tl_step s o now rnd = (s', r) -> tl_inv u now s' /\ tl_cap s' = tl_cap s.
+  Proof.
+    intros u t s o now rnd s' r Hi Hs Hst.
+    destruct o; simpl in Hs; try discriminate; simpl in Hst;
+      try (inversion Hst; subst; split; [exact Hi|reflexivity]).
+    - (* Insert *)
+      destruct (tl_ins s k v a now (now + ms (if tl_uniform s then tl_ttl s else ttl))) as [s1 b] eqn:Hins.
+      inversion Hst; subst; clear Hst.
+      destruct (tl_ins_cases _ _ _ _ _ _ _ _ _ _ Hi Hins)
+        as [(Hb & Hs' & _)|[(Hb & Hs' & v0 & e0 & Ha & _)|[(Hb & Ha & Hai & Hlen & Hs')|
+            (Hb & Ha & Hai & Hlen & kv & vv & ev & Hs' & Hkv & _)]]]; subst.
+      + split; [exact Hi|reflexivity].
+      + split; [eapply tl_inv_update; eauto|reflexivity].
+      + split; [|reflexivity]. eapply tl_inv_with; [eassumption| |].
+        * apply tl_core_add; [eapply tl_inv_core; eassumption|assumption].
+        * rewrite app_length. simpl. lia.
+      + split; [|reflexivity]. eapply tl_inv_with; [eassumption| |].
+        * apply tl_core_add; [apply tl_core_erase; eapply tl_inv_core; eassumption|].
+          rewrite tl_assoc_remk. now destruct (eqb kv k).
+        * rewrite app_length. simpl. destruct Hi as (_ & _ & Hn & _).
+          rewrite (tl_length_remk kv _ _ Hn Hkv) in Hlen. lia.
+    - (* Erase *)
+      unfold tl_erase in Hst. destruct (assoc k (tl_lru s)); inversion Hst; subst.
+      + split; [now apply (tl_inv_erase_key u t)|reflexivity].
+      + split; [exact Hi|reflexivity].
+    - (* Find *)
+      destruct (tl_find s k peek now) as [s1 r1] eqn:Hf. inversion Hst; subst; clear Hst.
+      destruct (tl_find_cases _ _ _ _ _ _ Hf)
+        as [(Ha & Hs' & Hr)|[(v & e & Ha & Hlt & Hr & Hs')|(v & e & Ha & Hle & Hr & Hs')]]; subst.
+      + split; [exact Hi|reflexivity].
+      + destruct peek; (split; [|reflexivity]); [exact Hi|now apply (tl_inv_touch u t)].
+      + split; [now apply (tl_inv_erase_key u t)|reflexivity].
+    - (* UpdateTtl *)
+      destruct (tl_uniform s) eqn:Hu; inversion Hst; subst; (split; [|reflexivity]); [|exact Hi].
+      destruct Hi as (H0 & H1 & H2 & H3 & H4 & H5 & H6). unfold tl_inv. simpl.
+      tl_splits; auto. congruence.
+    - (* Clear *)
+      destruct (tl_uniform s) eqn:Hu; inversion Hst; subst; (split; [|reflexivity]); [|exact Hi].
+      destruct Hi as (H0 & H1 & _). rewrite <- H0, Hu. now apply tl_inv_init.
+    - (* Clean *)
+      destruct (tl_clean s now) as [s1 n] eqn:Hc. inversion Hst; subst; clear Hst.
+      split.
+      + unfold tl_clean in Hc.
+        destruct (tl_clean_loop now (tl_ord s) (tl_lru s) 0) as [[l o] n0] eqn:Hloop.
+        inversion Hc; subst; clear Hc.
+        destruct (tl_clean_loop_spec _ _ _ _ _ _ _ (tl_inv_core _ _ _ Hi) Hloop) as (Hc & Hl & Hn & Ho).
+        pose proof (tl_filter_split_len now (tl_lru s)) as Hsplit.
+        eapply tl_inv_with; [eassumption|assumption|]. destruct Hi as (_ & _ & _ & Hlen & _).
+        rewrite Hl. lia.
+      + unfold tl_clean in Hc.
+        destruct (tl_clean_loop now (tl_ord s) (tl_lru s) 0) as [[l o] n0].
+        inversion Hc; subst. reflexivity.
+  Qed.
+
+  (* ---- structure ---- *)
+  Lemma tl_f_keys_get : forall (s : tl K V) k, In k (keys (tl_lru s)) <-> tl_get s k <> None.
+  Proof.
+    intros s k. unfold tl_get. destruct (assoc k (tl_lru s)) as [[v e]|] eqn:Ha.
+    - split; [discriminate|]. intros _. eapply tl_assoc_some_keys; eassumption.
+    - apply tl_assoc_none_keys in Ha. split; [tauto|congruence].
+  Qed.
+  Lemma tl_f_view : forall (s : tl K V) now k, tl_view s now k = view_of (tl_get s) now k.
+  Proof.
+    intros s now k. unfold tl_view, view_of, tl_get.
+    destruct (assoc k (tl_lru s)) as [[v e]|]; reflexivity.
+  Qed.
+
+  (* ---- frame: nothing appears ---- *)
+  Lemma tl_step_no_appear : forall u t (s : tl K V) o now rnd s' r k', tl_inv u t s ->
+      single o = true -> tl_step s o now rnd = (s', r) ->
+      touches o k' = false -> tl_get s' k' <> None -> tl_get s' k' = tl_get s k'.
+  Proof.
+    intros u t s o now rnd s' r k' Hi Hs Hst Ht Hg.
+    destruct o; simpl in Hs; try discriminate; simpl in Hst; simpl in Ht;
+      try (inversion Hst; subst; reflexivity).
+    - (* Insert *)
+      destruct (tl_ins s k v a now (now + ms (if tl_uniform s then tl_ttl s else ttl))) as [s1 b] eqn:Hins.
+      inversion Hst; subst; clear Hst.
+      destruct (tl_ins_cases _ _ _ _ _ _ _ _ _ _ Hi Hins)
+        as [(Hb & Hs' & _)|[(Hb & Hs' & v0 & e0 & Ha & _)|[(Hb & Ha & Hai & Hlen & Hs')|
+            (Hb & Ha & Hai & Hlen & kv & vv & ev & Hs' & Hkv & _)]]]; subst.
+      + reflexivity.
+      + apply tl_get_ext. simpl. rewrite tl_assoc_touch. now rewrite Ht.
+      + apply tl_get_ext. simpl. rewrite tl_assoc_snoc_absent by assumption. now rewrite Ht.
+      + revert Hg. unfold tl_get. simpl. rewrite tl_assoc_evict_add by assumption. rewrite Ht.
+        destruct (eqb kv k'); [congruence|reflexivity].
+    - (* Erase *)
+      unfold tl_erase in Hst. destruct (assoc k (tl_lru s)); inversion Hst; subst; [|reflexivity].
+      apply tl_get_ext. simpl. rewrite tl_assoc_remk. now rewrite Ht.
+    - (* Find *)
+      destruct (tl_find s k peek now) as [s1 r1] eqn:Hf. inversion Hst; subst; clear Hst.
+      destruct (tl_find_cases _ _ _ _ _ _ Hf)
+        as [(Ha & Hs' & Hr)|[(v & e & Ha & Hlt & Hr & Hs')|(v & e & Ha & Hle & Hr & Hs')]]; subst.
+      + reflexivity.
+      + destruct peek; [reflexivity|]. apply tl_get_ext. simpl. now apply tl_assoc_touch_same.
+      + revert Hg. unfold tl_get. simpl. rewrite tl_assoc_remk.
+        destruct (eqb k k'); [congruence|reflexivity].
+    - (* UpdateTtl *)
+      destruct (tl_uniform s); inversion Hst; subst; reflexivity.
+    - (* Clean *)
+      destruct (tl_clean s now) as [s1 n] eqn:Hc. inversion Hst; subst; clear Hst.
+      revert Hg. unfold tl_get. rewrite (tl_clean_assoc _ _ _ _ _ _ k' Hi Hc).
+      destruct (assoc k' (tl_lru s)) as [[v e]|]; [|congruence].
+      destruct (now <? e)%Z; [reflexivity|congruence].
+  Qed.
+
+  (* ---- a live entry is lost only as the single victim of an evicting insert ---- *)
+  Lemma tl_step_loss : forall u t (s : tl K V) o now rnd s' r k', tl_inv u t s ->
+      single o = true -> tl_step s o now rnd = (s', r) ->
+      touches o k' = false -> lost_live (tl_get s) (tl_get s') now k' ->
+      (exists ttl k v a, o = Insert ttl k v a /\ r = RB true /\ tl_get s k = None) /\
+      tl_size s = tl_cap s /\ tl_size s' = tl_cap s /\
+      (forall k'', ~ deadk (tl_get s) now k'') /\
+      (forall k'', touches o k'' = false -> lost_live (tl_get s) (tl_get s') now k'' -> k'' = k').
+  Proof.
+    intros u t s o now rnd s' r k' Hi Hs Hst Ht Hlost.
+    destruct o; simpl in Hs; try discriminate; simpl in Hst; simpl in Ht;
+      try (exfalso; inversion Hst; subst; revert Hlost; apply tl_no_loss; reflexivity).
+    - (* Insert *)
+      destruct (tl_ins s k v a now (now + ms (if tl_uniform s then tl_ttl s else ttl))) as [s1 b] eqn:Hins.
+      inversion Hst; subst; clear Hst.
+      destruct (tl_ins_cases _ _ _ _ _ _ _ _ _ _ Hi Hins)
+        as [(Hb & Hs' & _)|[(Hb & Hs' & v0 & e0 & Ha & _)|[(Hb & Ha & Hai & Hlen & Hs')|
+            (Hb & Ha & Hai & Hlen & kv & vv & ev & Hs' & Hkv & Hor)]]]; subst.
+      + exfalso. revert Hlost. now apply tl_no_loss.
+      + exfalso. revert Hlost. apply tl_no_loss. simpl. rewrite tl_assoc_touch. now rewrite Ht.
+      + exfalso. revert Hlost. apply tl_no_loss. simpl. rewrite tl_assoc_snoc_absent by assumption.
+        now rewrite Ht.
+      + assert (Hvict : forall k'', eqb k k'' = false ->
+                  lost_live (tl_get s)
+                    (tl_get (tl_with s (remk kv (tl_lru s) ++
+                       [(k, (v, (now + ms (if tl_uniform s then tl_ttl s else ttl))%Z))])
+                       (dl_insert (now + ms (if tl_uniform s then tl_ttl s else ttl)) k
+                                  (rem2 kv (tl_ord s))))) now k'' ->
+                  k'' = kv /\ (now < ev)%Z).
+        { intros k'' Hk'' [Hl Hn]. apply tl_live_assoc in Hl. destruct Hl as (v1 & e1 & Ha1 & Hlt1).
+          apply tl_get_none in Hn. simpl in Hn. rewrite tl_assoc_evict_add in Hn by assumption.
+          rewrite Hk'' in Hn. destruct (eqb_spec kv k'') as [E|N]; [|congruence].
+          subst k''. split; [reflexivity|]. congruence. }
+        destruct (Hvict k' Ht Hlost) as [E Hlt]. subst k'.
+        destruct Hor as [Hle|[Hhead Hnodead]]; [lia|].
+        tl_splits.
+        * exists ttl, k, v, a. tl_splits; auto. now apply tl_get_none.
+        * exact Hlen.
+        * unfold tl_size. simpl. rewrite app_length. simpl.
+          destruct Hi as (_ & _ & Hn & _). rewrite (tl_length_remk kv _ _ Hn Hkv) in Hlen. lia.
+        * intros k'' Hd. apply tl_dead_assoc in Hd. destruct Hd as (v1 & e1 & Ha1 & Hle1).
+          apply Hnodead in Ha1. lia.
+        * intros k'' Ht'' Hl''. simpl in Ht''. now destruct (Hvict k'' Ht'' Hl'').
+    - (* Erase *)
+      exfalso. revert Hlost. apply tl_no_loss.
+      unfold tl_erase in Hst. destruct (assoc k (tl_lru s)); inversion Hst; subst; [|reflexivity].
+      simpl. rewrite tl_assoc_remk. now rewrite Ht.
+    - (* Find *)
+      exfalso.
+      destruct (tl_find s k peek now) as [s1 r1] eqn:Hf. inversion Hst; subst; clear Hst.
+      destruct (tl_find_cases _ _ _ _ _ _ Hf)
+        as [(Ha & Hs' & Hr)|[(v & e & Ha & Hlt & Hr & Hs')|(v & e & Ha & Hle & Hr & Hs')]]; subst.
+      + revert Hlost. now apply tl_no_loss.
+      + revert Hlost. apply tl_no_loss. destruct peek; [reflexivity|]. simpl.
+        now apply tl_assoc_touch_same.
+      + destruct Hlost as [Hl Hn]. apply tl_live_assoc in Hl. destruct Hl as (v1 & e1 & Ha1 & Hlt1).
+        apply tl_get_none in Hn. simpl in Hn. rewrite tl_assoc_remk in Hn.
+        destruct (eqb_spec k k') as [E|N]; [|congruence]. subst k'.
+        assert (e1 = e) by congruence. lia.
+    - (* UpdateTtl *)
+      exfalso. revert Hlost. apply tl_no_loss.
+      destruct (tl_uniform s); inversion Hst; subst; reflexivity.
+    - (* Clean *)
+      exfalso.
+      destruct (tl_clean s now) as [s1 n] eqn:Hc. inversion Hst; subst; clear Hst.
+      destruct Hlost as [Hl Hn]. apply tl_live_assoc in Hl. destruct Hl as (v1 & e1 & Ha1 & Hlt1).
+      apply tl_get_none in Hn. rewrite (tl_clean_assoc _ _ _ _ _ _ k' Hi Hc) in Hn. rewrite Ha1 in Hn.
+      destruct (Z.ltb_spec now e1); [discriminate|lia].
+  Qed.
+
+  (* ---- lookups ---- *)
+  Lemma tl_step_find : forall (s : tl K V) k pk now rnd s' r,
+      tl_step s (Find k pk) now rnd = (s', r) ->
+      r = RO (tl_view s now k) /\ (tl_view s now k = None -> tl_get s' k = None).
+  Proof.
+    intros s k pk now rnd s' r Hst. simpl in Hst.
+    destruct (tl_find s k pk now) as [s1 r1] eqn:Hf. inversion Hst; subst; clear Hst.
+    unfold tl_view.
+    destruct (tl_find_cases _ _ _ _ _ _ Hf)
+      as [(Ha & Hs' & Hr)|[(v & e & Ha & Hlt & Hr & Hs')|(v & e & Ha & Hle & Hr & Hs')]]; subst;
+      rewrite Ha.
+    - split; [reflexivity|]. intros _. now apply tl_get_none.
+    - destruct (Z.ltb_spec now e); [|lia]. split; [reflexivity|discriminate].
+    - destruct (Z.ltb_spec now e); [lia|]. split; [reflexivity|]. intros _.
+      apply tl_get_none. simpl. rewrite tl_assoc_remk. now rewrite tl_keqb_refl.
+  Qed.
+
+  (* ---- insert ---- *)
+  Lemma tl_step_ins : forall u t (s : tl K V) ttl k v a now rnd s' r, tl_inv u t s ->
+      tl_step s (Insert ttl k v a) now rnd = (s', r) ->
+      exists b, r = RB b /\
+        (livek (tl_get s) now k -> b = a_upd a) /\
+        (tl_get s k = None -> b = a_ins a) /\
+        (deadk (tl_get s) now k -> (a_ins a = true -> b = true) /\
+                                   (b = true -> a_ins a = true \/ a_upd a = true)) /\
+        (b = true -> tl_get s' k =
+                     Some (v, Some (now + ms (if tl_uniform s then tl_ttl s else ttl))%Z)) /\
+        (b = false -> keeps (tl_get s) (tl_get s') now k) /\
+        (true = true -> b = true -> tl_get s k = None ->
+           tl_size s' = if tl_size s <? tl_cap s then S (tl_size s) else tl_cap s).
+  Proof.
+    intros u t s ttl k v a now rnd s' r Hi Hst. simpl in Hst.
+    destruct (tl_ins s k v a now (now + ms (if tl_uniform s then tl_ttl s else ttl))) as [s1 b] eqn:Hins.
+    inversion Hst; subst; clear Hst. exists b. split; [reflexivity|].
+    destruct (tl_ins_cases _ _ _ _ _ _ _ _ _ _ Hi Hins)
+      as [(Hb & Hs' & Hor)|[(Hb & Hs' & v0 & e0 & Ha & Hor)|[(Hb & Ha & Hai & Hlen & Hs')|
+          (Hb & Ha & Hai & Hlen & kv & vv & ev & Hs' & Hkv & _)]]]; subst.
+    - (* rejected *)
+      tl_splits; try discriminate.
+      + intros Hl. apply tl_live_assoc in Hl. destruct Hl as (v1 & e1 & Ha1 & Hlt1).
+        destruct Hor as [[Ha _]|(v0 & e0 & Ha & Hu & _)]; congruence.
+      + intros Hn. apply tl_get_none in Hn.
+        destruct Hor as [[Ha Hai]|(v0 & e0 & Ha & _)]; congruence.
+      + intros Hd. apply tl_dead_assoc in Hd. destruct Hd as (v1 & e1 & Ha1 & Hle1).
+        destruct Hor as [[Ha _]|(v0 & e0 & Ha & Hu & [Hai|Hlt])]; try congruence.
+        * split; [congruence|discriminate].
+        * assert (e1 = e0) by congruence. lia.
+      + intros _. now left.
+    - (* update / revive *)
+      tl_splits; try discriminate.
+      + intros Hl. apply tl_live_assoc in Hl. destruct Hl as (v1 & e1 & Ha1 & Hlt1).
+        destruct Hor as [Hu|[Hai Hle]]; [congruence|]. assert (e1 = e0) by congruence. lia.
+      + intros Hn. apply tl_get_none in Hn. congruence.
+      + intros _. split; [reflexivity|]. intros _. destruct Hor as [Hu|[Hai _]]; auto.
+      + intros _. unfold tl_get. simpl. rewrite tl_assoc_touch. now rewrite tl_keqb_refl.
+      + intros _ _ Hn. apply tl_get_none in Hn. congruence.
+    - (* new key, room *)
+      tl_splits; try discriminate.
+      + intros Hl. apply tl_live_assoc in Hl. destruct Hl as (v1 & e1 & Ha1 & Hlt1). congruence.
+      + intros _. congruence.
+      + intros Hd. apply tl_dead_assoc in Hd. destruct Hd as (v1 & e1 & Ha1 & Hle1). congruence.
+      + intros _. unfold tl_get. simpl. rewrite tl_assoc_snoc_absent by assumption.
+        now rewrite tl_keqb_refl.
+      + intros _ _ _. unfold tl_size. simpl. rewrite app_length. simpl.
+        destruct (Nat.ltb_spec (length (tl_lru s)) (tl_cap s)); lia.
+    - (* new key, eviction *)
+      tl_splits; try discriminate.
+      + intros Hl. apply tl_live_assoc in Hl. destruct Hl as (v1 & e1 & Ha1 & Hlt1). congruence.
+      + intros _. congruence.
+      + intros Hd. apply tl_dead_assoc in Hd. destruct Hd as (v1 & e1 & Ha1 & Hle1). congruence.
+      + intros _. unfold tl_get. simpl. rewrite tl_assoc_evict_add by assumption.
+        now rewrite tl_keqb_refl.
+      + intros _ _ _. unfold tl_size. simpl. rewrite app_length. simpl.
+        destruct Hi as (_ & _ & Hn & _). pose proof (tl_length_remk kv _ _ Hn Hkv).
+        destruct (Nat.ltb_spec (length (tl_lru s)) (tl_cap s)); lia.
+  Qed.
+
+  (* ---- erase ---- *)
+  Lemma tl_step_erase : forall (s : tl K V) k now rnd s' r,
+      tl_step s (Erase k) now rnd = (s', r) ->
+      exists b, r = RB b /\ tl_get s' k = None /\
+        (livek (tl_get s) now k -> b = true) /\ (b = true -> tl_get s k <> None).
+  Proof.
+    intros s k now rnd s' r Hst. simpl in Hst. unfold tl_erase in Hst.
+    destruct (assoc k (tl_lru s)) as [[v e]|] eqn:Ha; inversion Hst; subst; clear Hst.
+    - exists true. tl_splits; auto.
+      + apply tl_get_none. simpl. rewrite tl_assoc_remk. now rewrite tl_keqb_refl.
+      + intros _ Hn. apply tl_get_none in Hn. congruence.
+    - exists false. tl_splits; auto.
+      + now apply tl_get_none.
+      + intros Hl. apply tl_live_assoc in Hl. destruct Hl as (v1 & e1 & Ha1 & _). congruence.
+      + discriminate.
+  Qed.
+
+  (* ---- clean ---- *)
+  Lemma tl_step_clean : forall u t (s : tl K V) now rnd s' r, tl_inv u t s ->
+      tl_step s Clean now rnd = (s', r) ->
+      exists n, r = RN n /\ n + tl_size s' = tl_size s /\
+        (forall k, deadk (tl_get s) now k -> tl_get s' k = None) /\
+        (forall k, ~ deadk (tl_get s) now k -> tl_get s' k = tl_get s k).
+  Proof.
+    intros u t s now rnd s' r Hi Hst. simpl in Hst.
+    destruct (tl_clean s now) as [s1 n] eqn:Hc. inversion Hst; subst; clear Hst.
+    exists n. split; [reflexivity|]. tl_splits.
+    - pose proof Hc as Hc0. unfold tl_clean in Hc.
+      destruct (tl_clean_loop now (tl_ord s) (tl_lru s) 0) as [[l o] n0] eqn:Hloop.
+      inversion Hc; subst; clear Hc.
+      destruct (tl_clean_loop_spec _ _ _ _ _ _ _ (tl_inv_core _ _ _ Hi) Hloop) as (_ & Hl & Hn & _).
+      pose proof (tl_filter_split_len now (tl_lru s)). unfold tl_size. simpl. rewrite Hl, Hn. simpl. lia.
+    - intros k Hd. apply tl_dead_assoc in Hd. destruct Hd as (v1 & e1 & Ha1 & Hle1).
+      apply tl_get_none. rewrite (tl_clean_assoc _ _ _ _ _ _ k Hi Hc). rewrite Ha1.
+      destruct (Z.ltb_spec now e1); [lia|reflexivity].
+    - intros k Hnd. apply tl_get_ext. rewrite (tl_clean_assoc _ _ _ _ _ _ k Hi Hc).
+      destruct (assoc k (tl_lru s)) as [[v1 e1]|] eqn:Ha1; [|reflexivity].
+      destruct (Z.ltb_spec now e1); [reflexivity|]. exfalso. apply Hnd. apply tl_dead_assoc.
+      exists v1, e1. auto.
+  Qed.
+
+  (* ---- clear ---- *)
+  Lemma tl_step_clear : forall u t (s : tl K V) now rnd s' r, tl_inv u t s ->
+      tl_step s Clear now rnd = (s', r) ->
+      if u then r = RUnit /\ (forall k, tl_get s' k = None) /\ tl_size s' = 0
+      else r = RUnsupported /\ s' = s.
+  Proof.
+    intros u t s now rnd s' r Hi Hst. simpl in Hst. destruct Hi as (Hu & _). rewrite Hu in Hst.
+    destruct u; inversion Hst; subst; auto.
+  Qed.
+
+  Lemma tl_step_updttl : forall (s : tl K V) d now rnd s' r,
+      tl_step s (UpdateTtl d) now rnd = (s', r) -> forall k, tl_get s' k = tl_get s k.
+  Proof.
+    intros s d now rnd s' r Hst k. simpl in Hst.
+    destruct (tl_uniform s); inversion Hst; subst; reflexivity.
+  Qed.
 
   Global Instance tl_ok : forall u, ModelOK (tl_model u).
-  Admitted.
+  Proof.
+    intros u. constructor; simpl.
+    - intros t s (_ & _ & Hn & _). exact Hn.
+    - intros t s k _. apply tl_f_keys_get.
+    - intros t s _. unfold tl_size, keys. now rewrite map_length.
+    - intros t s (_ & _ & _ & Hl & _) _. exact Hl.
+    - intros t t' s Hi _. exact Hi.
+    - intros t s now k _ _. apply tl_f_view.
+    - intros t s o now rnd s' r Hi _ Hs _ Hst. exact (tl_step_inv u t s o now rnd s' r Hi Hs Hst).
+    - intros t s o now rnd s' r k' Hi _ Hs _ Hst. exact (tl_step_no_appear u t s o now rnd s' r k' Hi Hs Hst).
+    - intros t s o now rnd s' r k' Hi _ Hs _ Hst Ht Hl. split; [reflexivity|].
+      exact (tl_step_loss u t s o now rnd s' r k' Hi Hs Hst Ht Hl).
+    - intros t s k pk now rnd s' r _ _ _ Hst. exact (tl_step_find s k pk now rnd s' r Hst).
+    - intros t s k pk now rnd s' r _ _ _ Hst. inversion Hst; auto.
+    - intros t s ttl k v a now rnd s' r Hi _ _ Hst. exact (tl_step_ins u t s ttl k v a now rnd s' r Hi Hst).
+    - intros t s k now rnd s' r _ _ _ Hst. exact (tl_step_erase s k now rnd s' r Hst).
+    - intros t s now rnd s' r Hi _ _ Hst. exact (tl_step_clean u t s now rnd s' r Hi Hst).
+    - intros t s now rnd s' r Hi _ _ Hst. exact (tl_step_clear u t s now rnd s' r Hi Hst).
+    - reflexivity.
+    - reflexivity.
+    - reflexivity.
+    - intros t s now rnd s' r _ _ Hst k. inversion Hst; subst; reflexivity.
+    - intros t s d now rnd s' r _ _ Hst. exact (tl_step_updttl s d now rnd s' r Hst).
+  Qed.
 
   (* ---------------- C16: expired-first eviction ---------------- *)
   (* a successful insert of a new key into a full cache holding a dead entry removes a dead
@@ -51,9 +993,279 @@ Section TlFacts.
       exists kv, deadk (tl_get s) now kv /\ kv <> k /\ tl_get s' kv = None /\
         (forall k', k' <> k -> k' <> kv -> tl_get s' k' = tl_get s k') /\
         tl_lru s' = remk kv (tl_lru s) ++ [(k, (v, now + ms (if tl_uniform s then tl_ttl s else ttl))%Z)].
-  Admitted.
+  Proof.
+    intros u t s ttl k v a now rnd s' Hi Ht Hfull Hk Hst [kd Hkd]. simpl in Hst.
+    destruct (tl_ins s k v a now (now + ms (if tl_uniform s then tl_ttl s else ttl))) as [s1 b] eqn:Hins.
+    inversion Hst; subst; clear Hst. apply tl_get_none in Hk. unfold tl_size in Hfull.
+    destruct (tl_ins_cases _ _ _ _ _ _ _ _ _ _ Hi Hins)
+      as [(Hb & _)|[(Hb & Hs' & v0 & e0 & Ha & Hor)|[(Hb & Ha & Hai & Hlen & Hs')|
+          (Hb & Ha & Hai & Hlen & kv & vv & ev & Hs' & Hkv & Hor)]]]; subst;
+      [discriminate|congruence|lia|].
+    apply tl_dead_assoc in Hkd. destruct Hkd as (vd & ed & Had & Hled).
+    destruct Hor as [Hle|[_ Hnodead]]; [|apply Hnodead in Had; lia].
+    assert (Hne : kv <> k) by congruence.
+    exists kv. tl_splits.
+    - apply tl_dead_assoc. exists vv, ev. auto.
+    - exact Hne.
+    - apply tl_get_none. simpl. rewrite tl_assoc_evict_add by assumption.
+      rewrite (tl_keqb_neq k kv) by congruence. now rewrite tl_keqb_refl.
+    - intros k' Hk1 Hk2. apply tl_get_ext. simpl. rewrite tl_assoc_evict_add by assumption.
+      rewrite (tl_keqb_neq k k') by congruence. now rewrite (tl_keqb_neq kv k') by congruence.
+    - reflexivity.
+  Qed.
+
+  (* ---------------- C04 / C05: which TTL a write gets, and that update_ttl only
+     changes later writes ---------------- *)
+  Lemma tl_prune_ttl : forall (s : tl K V) now,
+      tl_ttl (tl_prune s now) = tl_ttl s /\ tl_uniform (tl_prune s now) = tl_uniform s.
+  Proof.
+    intros s now. unfold tl_prune. destruct (tl_lru s) as [|[kl x] r]; auto.
+    destruct (tl_ord s) as [|[e k] ro]; auto. destruct (e <=? now)%Z; auto.
+  Qed.
+  Lemma tl_ins_ttl : forall (s : tl K V) k v a now e s' b,
+      tl_ins s k v a now e = (s', b) -> tl_ttl s' = tl_ttl s /\ tl_uniform s' = tl_uniform s.
+  Proof.
+    intros s k v a now e s' b Hins. unfold tl_ins in Hins.
+    destruct (assoc k (tl_lru s)) as [[v0 e0]|].
+    - destruct (a_upd a); [inversion Hins; subst; auto|].
+      destruct (a_ins a); [|inversion Hins; subst; auto].
+      destruct (e0 <=? now)%Z; inversion Hins; subst; auto.
+    - destruct (a_ins a); inversion Hins; subst; auto. simpl.
+      destruct (tl_cap s <=? length (tl_lru s)); auto. apply tl_prune_ttl.
+  Qed.
+  Lemma tl_ins_range_ttl : forall l (s : tl K V) a now n s' n',
+      tl_ins_range s l a now n = (s', n') -> tl_ttl s' = tl_ttl s /\ tl_uniform s' = tl_uniform s.
+  Proof.
+    induction l as [|[[ttl k] v] l IH]; intros s a now n s' n' Hr; simpl in Hr.
+    - inversion Hr; subst; auto.
+    - destruct (tl_ins s k v a now (now + ms (if tl_uniform s then tl_ttl s else ttl))) as [s1 b] eqn:Hins.
+      apply tl_ins_ttl in Hins. apply IH in Hr. destruct Hins, Hr. split; congruence.
+  Qed.
+  Lemma tl_erase_range_ttl : forall l (s : tl K V) n s' n',
+      tl_erase_range s l n = (s', n') -> tl_ttl s' = tl_ttl s.
+  Proof.
+    induction l as [|k l IH]; intros s n s' n' Hr; simpl in Hr.
+    - inversion Hr; subst; auto.
+    - unfold tl_erase in Hr. destruct (assoc k (tl_lru s)); apply IH in Hr; exact Hr.
+  Qed.
+  Lemma tl_find_ttl : forall (s : tl K V) k pk now s' r,
+      tl_find s k pk now = (s', r) -> tl_ttl s' = tl_ttl s.
+  Proof.
+    intros s k pk now s' r Hf. unfold tl_find in Hf.
+    destruct (assoc k (tl_lru s)) as [[v e]|]; [|inversion Hf; subst; auto].
+    destruct (now <? e)%Z; [destruct pk|]; inversion Hf; subst; auto.
+  Qed.
+  Lemma tl_find_range_ttl : forall l (s : tl K V) pk now s' r,
+      tl_find_range s l pk now = (s', r) -> tl_ttl s' = tl_ttl s.
+  Proof.
+    induction l as [|k l IH]; intros s pk now s' r Hr; simpl in Hr.
+    - inversion Hr; subst; auto.
+    - destruct (tl_find s k pk now) as [s1 o] eqn:Hf.
+      destruct (tl_find_range s1 l pk now) as [s2 os] eqn:Hr2.
+      inversion Hr; subst. apply tl_find_ttl in Hf. apply IH in Hr2. congruence.
+  Qed.
+
+  Lemma tl_ttl_frame : forall (s : tl K V) o now rnd s' r,
+      tl_step s o now rnd = (s', r) -> (forall d, o <> UpdateTtl d) -> o <> Clear -> tl_ttl s' = tl_ttl s.
+  Proof.
+    intros s o now rnd s' r Hst Hnu Hnc.
+    destruct o; simpl in Hst; try (inversion Hst; subst; reflexivity).
+    - destruct (tl_ins s k v a now (now + ms (if tl_uniform s then tl_ttl s else ttl))) as [s1 b] eqn:Hins.
+      inversion Hst; subst. now apply tl_ins_ttl in Hins.
+    - destruct (tl_ins_range s l a now 0) as [s1 n] eqn:Hr. inversion Hst; subst.
+      now apply tl_ins_range_ttl in Hr.
+    - unfold tl_erase in Hst. destruct (assoc k (tl_lru s)); inversion Hst; subst; reflexivity.
+    - destruct (tl_erase_range s l 0) as [s1 n] eqn:Hr. inversion Hst; subst.
+      now apply tl_erase_range_ttl in Hr.
+    - destruct (tl_find s k peek now) as [s1 r1] eqn:Hf. inversion Hst; subst.
+      now apply tl_find_ttl in Hf.
+    - destruct (tl_find_range s l peek now) as [s1 r1] eqn:Hf. inversion Hst; subst.
+      now apply tl_find_range_ttl in Hf.
+    - destruct (tl_find_range s l peek now) as [s1 r1] eqn:Hf. inversion Hst; subst.
+      now apply tl_find_range_ttl in Hf.
+    - exfalso. now apply (Hnu d).
+    - congruence.
+    - unfold tl_clean in Hst.
+      destruct (tl_clean_loop now (tl_ord s) (tl_lru s) 0) as [[l o] n0].
+      inversion Hst; subst. reflexivity.
+  Qed.
+  Lemma tl_update_ttl_only_ttl : forall (s : tl K V) d now rnd s' r,
+      tl_uniform s = true -> tl_step s (UpdateTtl d) now rnd = (s', r) ->
+      r = RUnit /\ tl_ttl s' = d /\ tl_lru s' = tl_lru s /\ tl_ord s' = tl_ord s /\ tl_cap s' = tl_cap s.
+  Proof.
+    intros s d now rnd s' r Hu Hst. simpl in Hst. rewrite Hu in Hst. inversion Hst; subst.
+    simpl. auto.
+  Qed.
+
+  (* ---------------- C19: calls without effect ---------------- *)
+  Lemma tl_peek_live_noop : forall (s : tl K V) k now rnd v,
+      tl_view s now k = Some v -> tl_step s (Find k true) now rnd = (s, RO (Some v)).
+  Proof.
+    intros s k now rnd v Hv. simpl. unfold tl_find. unfold tl_view in Hv.
+    destruct (assoc k (tl_lru s)) as [[v0 e0]|]; [|discriminate].
+    destruct (now <? e0)%Z; [|discriminate]. congruence.
+  Qed.
+  Lemma tl_miss_absent_noop : forall (s : tl K V) k pk now rnd,
+      tl_get s k = None -> tl_step s (Find k pk) now rnd = (s, RO None).
+  Proof.
+    intros s k pk now rnd Hg. apply tl_get_none in Hg. simpl. unfold tl_find. now rewrite Hg.
+  Qed.
+  (* a lookup of an expired resident entry reaps exactly that entry *)
+  Lemma tl_miss_dead_reaps : forall (s : tl K V) k pk now rnd v e,
+      assoc k (tl_lru s) = Some (v, e) -> (e <= now)%Z ->
+      tl_step s (Find k pk) now rnd = (tl_erase_key s k, RO None).
+  Proof.
+    intros s k pk now rnd v e Ha Hle. simpl. unfold tl_find. rewrite Ha.
+    destruct (Z.ltb_spec now e); [lia|reflexivity].
+  Qed.
+  Lemma tl_rejected_insert_noop : forall (s : tl K V) ttl k v a now rnd s',
+      tl_step s (Insert ttl k v a) now rnd = (s', RB false) -> s' = s.
+  Proof.
+    intros s ttl k v a now rnd s' Hst. simpl in Hst. unfold tl_ins in Hst.
+    destruct (assoc k (tl_lru s)) as [[v0 e0]|].
+    - destruct (a_upd a); [inversion Hst|].
+      destruct (a_ins a); [|inversion Hst; subst; auto].
+      destruct (e0 <=? now)%Z; inversion Hst; subst; auto.
+    - destruct (a_ins a); inversion Hst; subst; auto.
+  Qed.
+  Lemma tl_erase_absent_noop : forall (s : tl K V) k now rnd s',
+      tl_step s (Erase k) now rnd = (s', RB false) -> s' = s.
+  Proof.
+    intros s k now rnd s' Hst. simpl in Hst. unfold tl_erase in Hst.
+    destruct (assoc k (tl_lru s)); inversion Hst; subst; auto.
+  Qed.
+
+  (* ---------------- C20: clear() ---------------- *)
+  Lemma tl_clear_is_init : forall (s : tl K V) now rnd,
+      tl_uniform s = true -> tl_step s Clear now rnd = (tl_init true (tl_cap s) (tl_ttl s), RUnit).
+  Proof. intros s now rnd Hu. simpl. now rewrite Hu. Qed.
 
   (* ---------------- C10: LRU victim when nothing is dead ---------------- *)
+  Section Recency.
+    Variable u : bool.
+    Let M := tl_model u.
+
+    Lemma tl_last_pos_fold_fst : forall (f : titem M -> bool) tr i p,
+        fst (fold_left (fun '(i, p) x => (S i, if f x then S i else p)) tr (i, p)) = i + length tr.
+    Proof.
+      intros f tr. induction tr as [|x tr IH]; intros i p; simpl; [lia|].
+      rewrite IH. lia.
+    Qed.
+    Lemma tl_last_pos_snoc : forall (f : titem M -> bool) tr x,
+        last_pos M f (tr ++ [x]) = if f x then S (length tr) else last_pos M f tr.
+    Proof.
+      intros f tr x. unfold last_pos. rewrite fold_left_app. simpl.
+      pose proof (tl_last_pos_fold_fst f tr 0 0) as Hf.
+      destruct (fold_left (fun '(i, p) x => (S i, if f x then S i else p)) tr (0, 0)) as [i p].
+      simpl in *. subst i. reflexivity.
+    Qed.
+    Lemma tl_last_pos_le : forall (f : titem M -> bool) tr, last_pos M f tr <= length tr.
+    Proof.
+      intros f tr. induction tr as [|x tr IH] using rev_ind; [unfold last_pos; simpl; lia|].
+      rewrite tl_last_pos_snoc, app_length. simpl. destruct (f x); lia.
+    Qed.
+
+    Definition tl_rec_lt (tr : list (titem M)) (a b : K) : Prop :=
+      last_use M a tr < last_use M b tr.
+
+    Lemma tl_rec_weak : forall tr x ks, StronglySorted (tl_rec_lt tr) ks ->
+        (forall k, In k ks -> uses M k x = false) -> StronglySorted (tl_rec_lt (tr ++ [x])) ks.
+    Proof.
+      intros tr x ks Hs Hu. eapply tl_sorted_weaken; [eassumption|].
+      intros a b Ha Hb. unfold tl_rec_lt, last_use. rewrite !tl_last_pos_snoc.
+      rewrite (Hu a Ha), (Hu b Hb). auto.
+    Qed.
+    Lemma tl_rec_touch : forall tr x (l : list (K * (V * Z))) k a,
+        StronglySorted (tl_rec_lt tr) (keys l) ->
+        (forall k', uses M k' x = eqb k k') ->
+        StronglySorted (tl_rec_lt (tr ++ [x])) (keys (remk k l ++ [(k, a)])).
+    Proof.
+      intros tr x l k a Hs Hu. unfold keys. rewrite map_app. simpl.
+      assert (Hne : forall k', In k' (map fst (remk k l)) -> k' <> k).
+      { intros k' Hin E. subst k'. revert Hin. apply tl_assoc_none_keys. rewrite tl_assoc_remk.
+        now rewrite tl_keqb_refl. }
+      apply tl_sorted_snoc.
+      - apply tl_rec_weak.
+        + rewrite tl_remk_filter. now apply tl_sorted_map_filter.
+        + intros k' Hin. rewrite Hu. apply tl_keqb_neq. apply Hne in Hin. congruence.
+      - intros k' Hin. unfold tl_rec_lt, last_use. rewrite !tl_last_pos_snoc.
+        rewrite (Hu k'), (Hu k), tl_keqb_refl. rewrite (tl_keqb_neq k k') by (apply Hne in Hin; congruence).
+        pose proof (tl_last_pos_le (uses M k') tr). lia.
+    Qed.
+    Lemma tl_rec_remk : forall tr x (l : list (K * (V * Z))) k,
+        StronglySorted (tl_rec_lt tr) (keys l) ->
+        (forall k', uses M k' x = false) ->
+        StronglySorted (tl_rec_lt (tr ++ [x])) (keys (remk k l)).
+    Proof.
+      intros tr x l k Hs Hu. apply tl_rec_weak; [|intros; apply Hu].
+      unfold keys. rewrite tl_remk_filter. now apply tl_sorted_map_filter.
+    Qed.
+
+    Lemma tl_rec_step : forall t tr (s : tl K V) e s' r, tl_inv u t s ->
+        StronglySorted (tl_rec_lt tr) (keys (tl_lru s)) ->
+        single (e_op e) = true -> tl_step s (e_op e) (e_now e) (e_rnd e) = (s', r) ->
+        StronglySorted (tl_rec_lt (tr ++ [((s : St M), e, r)])) (keys (tl_lru s')).
+    Proof.
+      intros t tr s [o now rnd] s' r Hi Hrec Hs Hst. simpl in Hs, Hst.
+      destruct o; simpl in Hs; try discriminate; simpl in Hst;
+        try (inversion Hst; subst; apply tl_rec_weak; [assumption|intros; try destruct peek; reflexivity]).
+      - (* Insert *)
+        destruct (tl_ins s k v a now (now + ms (if tl_uniform s then tl_ttl s else ttl))) as [s1 b] eqn:Hins.
+        inversion Hst; subst; clear Hst.
+        destruct (tl_ins_cases _ _ _ _ _ _ _ _ _ _ Hi Hins)
+          as [(Hb & Hs' & _)|[(Hb & Hs' & v0 & e0 & Ha & _)|[(Hb & Ha & Hai & Hlen & Hs')|
+              (Hb & Ha & Hai & Hlen & kv & vv & ev & Hs' & Hkv & _)]]]; subst.
+        + apply tl_rec_weak; [assumption|reflexivity].
+        + simpl. apply tl_rec_touch; [assumption|reflexivity].
+        + simpl. rewrite <- (tl_remk_absent k (tl_lru s) Ha) at 1.
+          apply tl_rec_touch; [assumption|reflexivity].
+        + simpl. assert (Ha' : assoc k (remk kv (tl_lru s)) = None).
+          { rewrite tl_assoc_remk. now destruct (eqb kv k). }
+          rewrite <- (tl_remk_absent k _ Ha') at 1.
+          apply tl_rec_touch; [|reflexivity].
+          unfold keys. rewrite tl_remk_filter. now apply tl_sorted_map_filter.
+      - (* Erase *)
+        unfold tl_erase in Hst. destruct (assoc k (tl_lru s)); inversion Hst; subst.
+        + simpl. apply tl_rec_remk; [assumption|reflexivity].
+        + apply tl_rec_weak; [assumption|reflexivity].
+      - (* Find *)
+        destruct (tl_find s k peek now) as [s1 r1] eqn:Hf. inversion Hst; subst; clear Hst.
+        destruct (tl_find_cases _ _ _ _ _ _ Hf)
+          as [(Ha & Hs' & Hr)|[(v & e & Ha & Hlt & Hr & Hs')|(v & e & Ha & Hle & Hr & Hs')]]; subst.
+        + apply tl_rec_weak; [assumption|intros; destruct peek; reflexivity].
+        + destruct peek.
+          * apply tl_rec_weak; [assumption|reflexivity].
+          * simpl. apply tl_rec_touch; [assumption|reflexivity].
+        + simpl. apply tl_rec_remk; [assumption|intros; destruct peek; reflexivity].
+      - (* UpdateTtl *)
+        destruct (tl_uniform s); inversion Hst; subst; simpl;
+          (apply tl_rec_weak; [assumption|reflexivity]).
+      - (* Clear *)
+        destruct (tl_uniform s); inversion Hst; subst; simpl.
+        + constructor.
+        + apply tl_rec_weak; [assumption|reflexivity].
+      - (* Clean *)
+        destruct (tl_clean s now) as [s1 n] eqn:Hc. inversion Hst; subst; clear Hst.
+        unfold tl_clean in Hc.
+        destruct (tl_clean_loop now (tl_ord s) (tl_lru s) 0) as [[l o] n0] eqn:Hloop.
+        inversion Hc; subst; clear Hc.
+        destruct (tl_clean_loop_spec _ _ _ _ _ _ _ (tl_inv_core _ _ _ Hi) Hloop) as (_ & Hl & _ & _).
+        simpl. subst l. apply tl_rec_weak; [|reflexivity].
+        unfold keys. now apply tl_sorted_map_filter.
+    Qed.
+
+    Lemma tl_wruns_inv : forall cap ttl0 tr t (s : tl K V), 1 <= cap ->
+        wruns M 0 (tl_init u cap ttl0) tr t s ->
+        tl_inv u t s /\ StronglySorted (tl_rec_lt tr) (keys (tl_lru s)).
+    Proof.
+      intros cap ttl0 tr t s Hcap Hw. induction Hw as [|tr t s e s' r Hw IH Hs Ht _ Hst].
+      - split; [now apply tl_inv_init|constructor].
+      - destruct IH as [Hi Hrec]. split.
+        + exact (proj1 (tl_step_inv u t s (e_op e) (e_now e) (e_rnd e) s' r Hi Hs Hst)).
+        + eapply tl_rec_step; eauto.
+    Qed.
+  End Recency.
+
   Theorem tl_victim_least_recent : forall u cap ttl0 tr t (s : tl K V) ttl k v a now rnd s',
       1 <= cap -> wruns (tl_model u) 0 (tl_init u cap ttl0) tr t s -> (t <= now)%Z ->
       tl_size s = tl_cap s -> tl_get s k = None ->
@@ -63,51 +1275,28 @@ Section TlFacts.
         (forall k', k' <> k -> k' <> kv -> tl_get s' k' = tl_get s k') /\
         (forall k', tl_get s k' <> None -> k' <> kv ->
                     last_use (tl_model u) kv tr < last_use (tl_model u) k' tr).
-  Admitted.
-
-  (* ---------------- C17: clean_expired_values ---------------- *)
-  (* removes exactly the dead entries, returns their number, and leaves the live entries
-     and their recency order as they were *)
-  Theorem tl_clean_exact : forall u t (s : tl K V) now s' n,
-      tl_inv u t s -> (t <= now)%Z -> tl_clean s now = (s', n) ->
-      tl_inv u now s' /\
-      tl_lru s' = filter (fun x => (now <? snd (snd x))%Z) (tl_lru s) /\
-      n = length (filter (fun x => (snd (snd x) <=? now)%Z) (tl_lru s)) /\
-      tl_size s' + n = tl_size s /\
-      (forall k, ~ deadk (tl_get s') now k).
-  Admitted.
-
-  (* ---------------- C04 / C05: which TTL a write gets, and that update_ttl only
-     changes later writes ---------------- *)
-  Lemma tl_ttl_frame : forall (s : tl K V) o now rnd s' r,
-      tl_step s o now rnd = (s', r) -> (forall d, o <> UpdateTtl d) -> o <> Clear -> tl_ttl s' = tl_ttl s.
-  Admitted.
-  Lemma tl_update_ttl_only_ttl : forall (s : tl K V) d now rnd s' r,
-      tl_uniform s = true -> tl_step s (UpdateTtl d) now rnd = (s', r) ->
-      r = RUnit /\ tl_ttl s' = d /\ tl_lru s' = tl_lru s /\ tl_ord s' = tl_ord s /\ tl_cap s' = tl_cap s.
-  Admitted.
-
-  (* ---------------- C19: calls without effect ---------------- *)
-  Lemma tl_peek_live_noop : forall (s : tl K V) k now rnd v,
-      tl_view s now k = Some v -> tl_step s (Find k true) now rnd = (s, RO (Some v)).
-  Admitted.
-  Lemma tl_miss_absent_noop : forall (s : tl K V) k pk now rnd,
-      tl_get s k = None -> tl_step s (Find k pk) now rnd = (s, RO None).
-  Admitted.
-  (* a lookup of an expired resident entry reaps exactly that entry *)
-  Lemma tl_miss_dead_reaps : forall (s : tl K V) k pk now rnd v e,
-      assoc k (tl_lru s) = Some (v, e) -> (e <= now)%Z ->
-      tl_step s (Find k pk) now rnd = (tl_erase_key s k, RO None).
-  Admitted.
-  Lemma tl_rejected_insert_noop : forall (s : tl K V) ttl k v a now rnd s',
-      tl_step s (Insert ttl k v a) now rnd = (s', RB false) -> s' = s.
-  Admitted.
-  Lemma tl_erase_absent_noop : forall (s : tl K V) k now rnd s',
-      tl_step s (Erase k) now rnd = (s', RB false) -> s' = s.
-  Admitted.
-
-  (* ---------------- C20: clear() ---------------- *)
-  Lemma tl_clear_is_init : forall (s : tl K V) now rnd,
-      tl_uniform s = true -> tl_step s Clear now rnd = (tl_init true (tl_cap s) (tl_ttl s), RUnit).
-  Admitted.
+  Proof.
+    intros u cap ttl0 tr t s ttl k v a now rnd s' Hcap Hw Ht Hfull Hk Hst Hnd.
+    destruct (tl_wruns_inv u cap ttl0 tr t s Hcap Hw) as [Hi Hrec].
+    simpl in Hst.
+    destruct (tl_ins s k v a now (now + ms (if tl_uniform s then tl_ttl s else ttl))) as [s1 b] eqn:Hins.
+    inversion Hst; subst; clear Hst. apply tl_get_none in Hk. unfold tl_size in Hfull.
+    destruct (tl_ins_cases _ _ _ _ _ _ _ _ _ _ Hi Hins)
+      as [(Hb & _)|[(Hb & Hs' & v0 & e0 & Ha & Hor)|[(Hb & Ha & Hai & Hlen & Hs')|
+          (Hb & Ha & Hai & Hlen & kv & vv & ev & Hs' & Hkv & Hor)]]]; subst;
+      [discriminate|congruence|lia|].
+    destruct Hor as [Hle|[(x & r0 & Hhead) _]].
+    { exfalso. apply (Hnd kv). apply tl_dead_assoc. exists vv, ev. auto. }
+    assert (Hne : kv <> k) by congruence.
+    exists kv. tl_splits.
+    - exact Hne.
+    - intros Hn. apply tl_get_none in Hn. congruence.
+    - apply tl_get_none. simpl. rewrite tl_assoc_evict_add by assumption.
+      rewrite (tl_keqb_neq k kv) by congruence. now rewrite tl_keqb_refl.
+    - intros k' Hk1 Hk2. apply tl_get_ext. simpl. rewrite tl_assoc_evict_add by assumption.
+      rewrite (tl_keqb_neq k k') by congruence. now rewrite (tl_keqb_neq kv k') by congruence.
+    - intros k' Hres Hk2. apply tl_f_keys_get in Hres. rewrite Hhead in Hres, Hrec. simpl in Hres, Hrec.
+      inversion Hrec as [|? ? _ Hall]; subst. rewrite Forall_forall in Hall.
+      destruct Hres as [E|Hin]; [congruence|]. exact (Hall k' Hin).
+  Qed.
 End TlFacts.
